@@ -140,17 +140,9 @@ func (c *connection) write() {
 			if ok {
 				c.onActiveEvent(activeMsg, record)
 			}
-		case msg, ok := <-c.activeMsgCompleteChan: // 平台主动下发的完成情况
+		case msg, ok := <-c.activeMsgCompleteChan: // 平台主动下发的超时情况
 			if ok {
-				seq := msg.ExtensionFields.PlatformSeq
-				if v, ok := record[seq]; ok {
-					msg.ExtensionFields.PlatformData = v.ExtensionFields.Data
-					msg.ExtensionFields.PlatformCommand = v.Command
-					msg.ExtensionFields.ActiveSend = true
-					c.onWriteExecutionEvent(msg)
-					v.replyChan <- msg
-					delete(record, seq)
-				}
+				c.completeActive(record, msg)
 			}
 		case subPackMsg, ok := <-c.reissuePackChan: // 分包补传的
 			if ok {
@@ -180,6 +172,20 @@ func (c *connection) stop() {
 		_ = c.conn.Close()
 		clear(c.handles)
 	})
+}
+
+// completeActive 把主动下发的结果(终端应答 超时 写失败)交给调用方 只在write协程中调用
+// write协程自己产生的结果直接调用 不能再写入activeMsgCompleteChan 因为它的消费者就是write协程自己 写满了会把自己阻塞住
+func (c *connection) completeActive(record map[uint16]*ActiveMessage, msg *Message) {
+	seq := msg.ExtensionFields.PlatformSeq
+	if v, ok := record[seq]; ok {
+		msg.ExtensionFields.PlatformData = v.ExtensionFields.Data
+		msg.ExtensionFields.PlatformCommand = v.Command
+		msg.ExtensionFields.ActiveSend = true
+		c.onWriteExecutionEvent(msg)
+		v.replyChan <- msg
+		delete(record, seq)
+	}
 }
 
 // failPending 连接结束时 还在等待应答的和还没有下发的主动请求 全部以失败返回 避免调用方一直阻塞
@@ -265,7 +271,7 @@ func (c *connection) onActiveEvent(activeMsg *ActiveMessage, record map[uint16]*
 	}
 	if err != nil {
 		replyMsg.ExtensionFields.Err = errors.Join(ErrWriteDataFail, err)
-		c.activeMsgCompleteChan <- replyMsg
+		c.completeActive(record, replyMsg)
 	} else if activeMsg.OverTimeDuration >= 0 {
 		duration := 3 * time.Second
 		if activeMsg.OverTimeDuration > 0 {
@@ -340,7 +346,7 @@ func (c *connection) onActiveRespondEvent(record map[uint16]*ActiveMessage, msg 
 		for k := range record {
 			if tmp.HasRespondFunc(k) {
 				msg.ExtensionFields.PlatformSeq = k
-				c.activeMsgCompleteChan <- msg
+				c.completeActive(record, msg)
 				return true
 			}
 		}
